@@ -224,13 +224,22 @@ def check_C05(tier, seed, t0):
     descs += P.gen_basic(rng, n_of(tier, 70, 700), types=("d", "d", "f", "l") if tier == "thorough" else ("d",), meas=0, ref=0)
     # breakdown-heavy inputs (zero, identity, low rank, few distinct eigenvalues): expand_basis() applies the operator too, and retries without
     descs += P.degenerate(rng, n_of(tier, 90, 900), types=("d",))
-    own = ["RetEqSizes", "RetEqComputeEnd", "StatusIffAll", "StatusDocumented", "AccessorsEqComputeEnd", "SortedBy", "PrefixColumns",
+    # every public call history generated by TLC from IRPublic.tla (length <= 2 / <= 3), spread over the 11 solver classes
+    import krygen
+    seqs, ginfo = krygen.pub_sequences(n_of(tier, 2, 3))
+    if not ginfo["ok"]:
+        raise V.Infra("MC_IRPubGen failed: %s" % ginfo.get("stdout_tail", ""))
+    descs += P.pub_history_descs(rng, seqs, per_seq=n_of(tier, 2, 3))
+    own = PUB + ["RetEqSizes", "RetEqComputeEnd", "StatusIffAll", "StatusDocumented", "AccessorsEqComputeEnd", "SortedBy", "PrefixColumns",
            "OpsEqTrue*", "ValsEqCols", "CountLeNev", "NotComputedBefore", "FlagsEqCount", "RowsEqN", "ArgsForwarded", "SelectionForwarded",
            "SortingForwarded", "I:RestartsBounded", "I:CountsAgree", "I:OpsCounted", "Genuine"] + PROTO
-    models = [("MC_IR.tla", "IR_quick.cfg" if tier == "quick" else "IR_design.cfg", 8)]
-    return ir_flow("C05", tier, seed, descs, own, models, COMMON_ASSUME, t0)
+    models = [("MC_IR.tla", "IR_quick.cfg" if tier == "quick" else "IR_design.cfg", 8), ("MC_IRPub.tla", "IRPub_quick.cfg" if tier == "quick" else "IRPub_full.cfg", 8)]
+    return ir_flow("C05", tier, seed, descs, own, models, COMMON_ASSUME, t0, neg_models=[("MC_IRPub.tla", "IRPub_neg.cfg", 4)],
+                   extra_cov=dict(generated_public_histories=dict(module="MC_IRPubGen", maxlen=ginfo["maxlen"], histories=len(seqs), states=ginfo["states"])))
 
 
+# rules of the public-level contract (spec/IRPublic.tla), judged by TraceIR from the harness lines alone
+PUB = ["PubInit", "PubCompute", "PubI:*"]
 HERM_NUM = ["Genuine", "UnitNorm", "Orthonormal", "ConvGenuine", "ConvCount", "I:ReturnedAreFresh", "AllFinite"]
 GEN_NUM = ["Genuine", "UnitNorm", "InSpectrumOfA", "Distinct", "ConvGenuine", "ConvCount", "I:ReturnedAreFresh", "AllFinite"]
 KRY = ["FacShape", "FacFinite", "KrylovAV", "KrylovVV", "KrylovVf", "KrylovBeta", "KrylovRealH", "Hessenberg", "TridiagonalSymmetric", "KAdvertised",
@@ -351,7 +360,7 @@ def check_C07(tier, seed, t0):
                 ("KrylovApa.tla", "TooStrong", False, dict(init="TooStrongInit", length=1))])
 
 
-C13_RULES = ["I:WorkBound", "I:KInRange", "I:ShiftInRange", "I:RestartsBounded", "G:ShiftBegin", "G:Shift", "G:NevAdj", "G:CompressH", "G:CompressV",
+C13_RULES = ["PubCompute", "PubInit", "I:WorkBound", "I:KInRange", "I:ShiftInRange", "I:RestartsBounded", "G:ShiftBegin", "G:Shift", "G:NevAdj", "G:CompressH", "G:CompressV",
              "G:RestartBegin", "G:FacBegin", "G:FacStep", "AllFinite", "OpArgsValid", "Abort", "UndocumentedException", "StatusDocumented",
              "Hang", "FacFinite", "EndedMidCall", "HeapOverrun"]
 
@@ -562,10 +571,17 @@ def check_C06(tier, seed, t0):
     descs += P.eigvec_start_descs(rng, n_of(tier, 12, 100), types=types_for(tier))
     if tier == "thorough":
         descs += P.history_descs(rng, 0, exhaustive_for=["sym", "gen", "gencs"], maxlen=3)
-    own = ["SameKeySameDigest", "OperatorUnchanged", "I:InitMakesFresh"]
-    models = [("MC_IR.tla", "IR_quick.cfg" if tier == "quick" else "IR_design.cfg", 8)]
+    # every public call history generated by TLC from IRPublic.tla before the observed pair: length <= 3 once (quick) / 4 times (thorough)
+    import krygen
+    seqs, ginfo = krygen.pub_sequences(n_of(tier, 3, 4))
+    if not ginfo["ok"]:
+        raise V.Infra("MC_IRPubGen failed: %s" % ginfo.get("stdout_tail", ""))
+    descs += P.pub_history_descs(rng, seqs, per_seq=1, types=types_for(tier))
+    own = ["SameKeySameDigest", "OperatorUnchanged", "I:InitMakesFresh", "PubInit", "PubI:InitMakesFresh"]
+    models = [("MC_IR.tla", "IR_quick.cfg" if tier == "quick" else "IR_design.cfg", 8), ("MC_IRPub.tla", "IRPub_quick.cfg", 8)]
     return ir_flow("C06", tier, seed, descs, own, models, COMMON_ASSUME + [
-        "digests are 63-bit hashes of the bit patterns of all public results and counters; equal digests are taken as bit-identical results"], t0)
+        "digests are 63-bit hashes of the bit patterns of all public results and counters; equal digests are taken as bit-identical results"], t0,
+        extra_cov=dict(generated_public_histories=dict(module="MC_IRPubGen", maxlen=ginfo["maxlen"], histories=len(seqs), states=ginfo["states"])))
 
 
 def check_C14(tier, seed, t0):
@@ -575,7 +591,7 @@ def check_C14(tier, seed, t0):
     else:
         descs = P.fault_descs(rng, 60, types=types_for(tier), stride=1) + P.fault_descs(rng, 24, stride=1, pairs=True) + P.fault_descs(rng, 12, stride=5, rep=3) + P.fault_descs_extra(rng, False)
     own = ["SameException", "FaultCountMatches", "SameKeySameDigest", "G:OpThrows", "NoLeak", "I:InitMakesFresh", "OperatorUnchanged", "Abort",
-           "UndocumentedException", "HeapOverrun", "EndedMidCall"]
+           "UndocumentedException", "HeapOverrun", "EndedMidCall"] + PUB
     models = [("MC_IR.tla", "IR_quick.cfg" if tier == "quick" else "IR_design.cfg", 8)]
     return ir_flow("C14", tier, seed, descs, own, models, COMMON_ASSUME + [
         "fault positions: every application index of the fault-free run (thorough) or every 3rd/7th with a random offset (quick)"], t0,
